@@ -141,3 +141,22 @@ FAMILIES["C12"] = dict(
                 "every case is replayed into the real code and validated."),
     level_note=_SEM_NOTE + " The context item seen by a context-defaulting built-in reached through a partial application, a chain or a higher-order built-in is left open by the statement and the specification abstains there.",
 )
+
+
+_LEX_MODELS = [("MC_Lex", "MC_Lex_repaired.cfg", "hold"),
+               ("MC_Lex", "MC_Lex_stale_bounds.cfg", "Invariant Bounds"),
+               ("MC_Lex", "MC_Lex_stale_term.cfg", "Temporal property Termination")]
+
+FAMILIES["C08"] = dict(
+    famtag="C08",
+    trace_module="TraceLex",
+    models=_LEX_MODELS,
+    g=[G("MC_C08", "MC_C08_quick.cfg", "MC_C08_thorough.cfg")],
+    v=[dict(profile="compile", n={"quick": 20000, "thorough": 400000})],
+    rule="a case is an input byte string; non-trivial when Compile returned an expression or a parse error after handing at least two tokens to the parser and the recorded token trace agrees with the scanner specification; distinct by bytes",
+    level_text=("The scanner is an explicit TLA+ step machine over byte strings (JLexFn/JLex: cur, start, width, err; one step per token). TLC proves Bounds (invariant), Progress (action property) and Termination (liveness under weak fairness, "
+                "no state constraint) for every byte string of length <= 3 (4 thorough) over a 20-byte alphabet covering every character class incl. 2/3-byte and invalid UTF-8, and shows that the pinned mechanism (stale width after a failed look-ahead, empty name tokens) violates Bounds and Termination. "
+                "Compile's outcome domain (expression | *jparse.Error with a defined type, a message and a position inside the input; MustCompile consistent; the returned expression prints and evaluates) and exact token agreement with JLex are checked by trace validation "
+                "(TraceLex) on every enumerated string, on every state of the TLA+ edit machine (delete/insert/replace/duplicate/truncate on 42 seed programs) and on seeded random bytes, token soup and edited generated programs, each compiled in the isolation worker under a wall-clock limit."),
+    level_note=_TOTAL_NOTE + " Which error a malformed input gets is not fixed by the property and is not checked.",
+)
